@@ -500,6 +500,15 @@ class ProcProxyThread(threading.Thread):
         safe_flush(sp_stdout)
         safe_flush(sp_stderr)
         self.returncode = parse_proxy_return(r, sp_stdout, sp_stderr)
+        # Only wrappers created above may be closed here.  When no pipe was
+        # set up, sp_stdout/sp_stderr are whatever sys.stdout/sys.stderr were
+        # when this thread started; safe_fdclose() compares against the
+        # *current* sys.std*, which another alias thread may have swapped
+        # for a dispatcher meanwhile, and would close the real stream.
+        if self.c2pwrite == -1:
+            sp_stdout = None
+        if self.errwrite == -1:
+            sp_stderr = None
         try:
             if not last_in_pipeline:
                 # Close wrappers before closing raw fds to avoid
